@@ -245,6 +245,7 @@ type c1Failure struct {
 }
 
 type c1Run struct {
+	light      bool // skip the independent compilation (large families)
 	obligation string
 	failures   []c1Failure
 	checked    int
@@ -409,6 +410,9 @@ func (r *c1Run) checkImage(ctx context.Context, w *c1WS, image Image, how string
 		if f.ExternalPath() != f.Path() {
 			r.fail("module ExternalPath known-or-path", "%s - %q has external path %q (in-memory module: the path itself)", desc(), f.Path(), f.ExternalPath())
 		}
+	}
+	if r.light {
+		return
 	}
 	// descriptors: what the compiler produces for the source text
 	var paths []string
@@ -882,7 +886,7 @@ func (r *c1Run) familyGetImage(ctx context.Context) {
 			}
 			image, err := getImage(ctx, false, sorted, result.Symbols, handler, result.SyntaxUnspecifiedFilenames, result.FilenameToUnusedDependencyFilenames)
 			if err != nil {
-				r.fail("built", "%s getImage(target order %v): %v", w.describe(), paths, err)
+				r.fail("built each-path-once", "%s getImage(target order %v) returned the error %q; the workspace compiles", w.describe(), paths, err.Error())
 				continue
 			}
 			r.checkImage(ctx, w, image, fmt.Sprintf("getImage(target order %v)", paths))
@@ -931,6 +935,18 @@ func c1ImageFiles(n int, edges [][2]int, extraDeps map[int][]string) ([]ImageFil
 	return out, nil
 }
 
+func c1EdgeNames(edges [][2]int) string {
+	var out []string
+	for _, e := range edges {
+		out = append(out, c1Paths[e[0]]+"->"+c1Paths[e[1]])
+	}
+	return "[" + strings.Join(out, " ") + " m/c.proto->not/in/image.proto]"
+}
+
+func c1EdgeNamesPlain(edges [][2]int) string {
+	return strings.Replace(c1EdgeNames(edges), " m/c.proto->not/in/image.proto]", "]", 1)
+}
+
 func (r *c1Run) familyNewImage() {
 	graphs := [][][2]int{
 		{},
@@ -954,7 +970,7 @@ func (r *c1Run) familyNewImage() {
 			for _, reorder := range []bool{false, true} {
 				r.checked++
 				img, err := newImage(in, reorder, nil)
-				what := fmt.Sprintf("newImage(files %v with dependencies %v, reorder=%v)", inNames, edges, reorder)
+				what := fmt.Sprintf("newImage(files %v with dependencies %s, reorder=%v)", inNames, c1EdgeNames(edges), reorder)
 				if err != nil {
 					r.fail("non-empty", "%s: error %v; the paths are distinct", what, err)
 					continue
@@ -974,10 +990,10 @@ func (r *c1Run) familyNewImage() {
 			for _, f := range in {
 				pathToImageFile[f.Path()] = f
 			}
-			r.checkOrdered(fmt.Sprintf("orderImageFiles(files %v with dependencies %v)", inNames, edges), in, orderImageFiles(in, pathToImageFile), true)
+			r.checkOrdered(fmt.Sprintf("orderImageFiles(files %v with dependencies %s)", inNames, c1EdgeNames(edges)), in, orderImageFiles(in, pathToImageFile), true)
 			// a sub-list: the dependencies that are in the map are pulled in
 			out := orderImageFiles(in[:1], pathToImageFile)
-			r.checkSubOrdered(fmt.Sprintf("orderImageFiles(files %v of an image with dependencies %v)", inNames[:1], edges), out, pathToImageFile)
+			r.checkSubOrdered(fmt.Sprintf("orderImageFiles(files %v of an image with dependencies %s)", inNames[:1], c1EdgeNames(edges)), out, pathToImageFile)
 		}
 		// duplicates and the empty list are rejected
 		r.checked += 2
@@ -1051,6 +1067,153 @@ func (r *c1Run) checkSubOrdered(what string, out []ImageFile, pathToImageFile ma
 	}
 }
 
+// ---- ls-files (C10): the listing is exactly what build puts into the image
+
+func (r *c1Run) lsFiles(ctx context.Context, w *c1WS) {
+	r.checked++
+	bucket, err := w.moduleReadBucket(ctx)
+	if err != nil {
+		return
+	}
+	fileInfos, err := bufmodule.GetFileInfos(ctx, bufmodule.ModuleReadBucketWithOnlyProtoFiles(bucket))
+	if err != nil {
+		fmt.Printf("VERIF-REPLAY generator problem: %v\n", err)
+		return
+	}
+	var imageFileInfos []ImageFileInfo
+	for _, fileInfo := range fileInfos {
+		imageFileInfos = append(imageFileInfos, ImageFileInfoForModuleFileInfo(fileInfo))
+	}
+	listed, err := ImageFileInfosWithOnlyTargetsAndTargetImports(ctx, datawkt.ReadBucket, imageFileInfos)
+	if err != nil {
+		r.fail("added-are-closed missing-import-is-error", "%s ls-files (ImageFileInfosWithOnlyTargetsAndTargetImports): error %v; every import is supplied", w.describe(), err)
+		return
+	}
+	expected, _ := w.expectedPaths()
+	isTarget := map[string]bool{}
+	for _, t := range w.targets {
+		isTarget[w.files[t].path] = true
+	}
+	var got []string
+	gotSet := map[string]bool{}
+	for _, info := range listed {
+		p := info.Path()
+		gotSet[p] = true
+		if info.IsImport() {
+			p += "(import)"
+		}
+		got = append(got, p)
+		if info.IsImport() == isTarget[info.Path()] {
+			r.fail("flags", "%s ls-files = %v: %q IsImport()=%v, target=%v", w.describe(), got, info.Path(), info.IsImport(), isTarget[info.Path()])
+		}
+	}
+	if !sort.StringsAreSorted(got) {
+		r.fail("sorted", "%s ls-files = %v: not sorted by path", w.describe(), got)
+	}
+	for p := range expected {
+		if !gotSet[p] {
+			r.fail("added-are-closed start-included monotone", "%s ls-files = %v: %q (a target or a transitive import of one; build puts it into the image) is not listed", w.describe(), got, p)
+		}
+	}
+	for p := range gotSet {
+		if !expected[p] {
+			r.fail("no-junk", "%s ls-files = %v: %q is listed but neither a target nor imported by one (build does not put it into the image)", w.describe(), got, p)
+		}
+	}
+}
+
+func (r *c1Run) familyLsFiles(ctx context.Context) {
+	for _, shape := range c1NamedShapes() {
+		n := len(shape)
+		for assign := 0; assign < 1<<n-1; assign++ {
+			files := c1Clone(shape)
+			var module0 []int
+			for i := range files {
+				if assign&(1<<i) != 0 {
+					files[i].module = 1
+				} else {
+					module0 = append(module0, i)
+				}
+			}
+			if assign%2 == 0 {
+				files[n-1].wkt = true
+			}
+			r.lsFiles(ctx, &c1WS{files: files, targets: module0})
+			r.lsFiles(ctx, &c1WS{files: files, targets: module0[:1]})
+		}
+	}
+	// the single step on hand-made infos: closure, nothing else, a missing import is an error
+	graphs := [][][2]int{{}, {{0, 1}, {1, 2}, {2, 3}}, {{0, 1}, {0, 2}, {1, 3}, {2, 3}}, {{3, 0}, {3, 1}, {0, 2}, {1, 2}}}
+	for _, edges := range graphs {
+		for _, missing := range []bool{false, true} {
+			extra := map[int][]string{}
+			if missing {
+				extra[2] = []string{"not/in/set.proto"}
+			}
+			files, err := c1ImageFiles(4, edges, extra)
+			if err != nil {
+				return
+			}
+			pathToInfo := map[string]ImageFileInfo{}
+			for _, f := range files {
+				pathToInfo[f.Path()] = f
+			}
+			for start := 0; start < 4; start++ {
+				r.checked++
+				want := map[string]bool{}
+				reachesMissing := false
+				var visit func(i int)
+				visit = func(i int) {
+					if want[c1Paths[i]] {
+						return
+					}
+					want[c1Paths[i]] = true
+					if i == 2 && missing {
+						reachesMissing = true
+					}
+					for _, e := range edges {
+						if e[0] == i {
+							visit(e[1])
+						}
+					}
+				}
+				visit(start)
+				result := map[string]struct{}{"already/there.proto": {}}
+				err := imageFileInfosWithOnlyTargetsAndTargetImportsRec(files[start], pathToInfo, result)
+				what := fmt.Sprintf("imageFileInfosWithOnlyTargetsAndTargetImportsRec(start %s, files with imports %s, m/b.proto also imports a file that is not in the set: %v)", c1Paths[start], c1EdgeNamesPlain(edges), missing)
+				if reachesMissing {
+					if err == nil {
+						r.fail("missing-import-is-error", "%s: no error although an import is not among the files", what)
+					}
+					continue
+				}
+				if err != nil {
+					r.fail("added-are-closed", "%s: error %v", what, err)
+					continue
+				}
+				var got []string
+				for p := range result {
+					got = append(got, p)
+				}
+				sort.Strings(got)
+				if _, ok := result["already/there.proto"]; !ok {
+					r.fail("monotone", "%s = %v: a path that was already in the result set was removed", what, got)
+				}
+				for p := range want {
+					if _, ok := result[p]; !ok {
+						r.fail("added-are-closed start-included", "%s = %v: %q is missing", what, got, p)
+					}
+				}
+				for p := range result {
+					if !want[p] && p != "already/there.proto" {
+						r.fail("no-junk", "%s = %v: %q is neither the start file nor imported", what, got, p)
+					}
+				}
+			}
+		}
+	}
+}
+
 func TestVerifReplayC01(t *testing.T) {
 	fn := os.Getenv("VERIF_REPLAY_FUNC")
 	obligation := os.Getenv("VERIF_REPLAY_OBLIGATION")
@@ -1061,6 +1224,8 @@ func TestVerifReplayC01(t *testing.T) {
 	case foreign:
 		// FileAnnotationForErrorWithPos, newFileInfo, fileInfo.Path/ExternalPath, newFileAnnotationOptions
 		r.familyCompileErrors(ctx)
+	case fn == "imageFileInfosWithOnlyTargetsAndTargetImportsRec" || fn == "ImageFileInfosWithOnlyTargetsAndTargetImports" || fn == "appendWellKnownTypeImageFileInfos":
+		r.familyLsFiles(ctx)
 	case fn == "checkAndSortFiles":
 		r.familyCheckAndSort(ctx)
 		r.familyGetImage(ctx)
@@ -1078,7 +1243,9 @@ func TestVerifReplayC01(t *testing.T) {
 		r.familyKinds(ctx)
 		r.familyModules(ctx)
 		r.familyWKT(ctx)
+		r.light = true
 		r.familyShapes(ctx, false)
+		r.light = false
 		if fn == "getBuildResult" || fn == "buildImage" || fn == "BuildImage" {
 			r.familyCompileErrors(ctx)
 		}
@@ -1105,10 +1272,15 @@ func TestVerifReplayC01(t *testing.T) {
 		if count >= 5 {
 			break
 		}
-		if printed[f.text] {
+		// one line per workspace / call
+		key := f.text
+		if i := strings.Index(key, " - "); i >= 0 {
+			key = key[:i]
+		}
+		if printed[key] {
 			continue
 		}
-		printed[f.text] = true
+		printed[key] = true
 		fmt.Printf("VERIF-REPLAY FAILING-INPUT %s\n", f.text)
 		count++
 	}
